@@ -108,12 +108,18 @@ func genAttr(r *hx.Rng, name string, k, nv int, rle bool) attrDesc {
 var smallCounts = []int{1, 1, 2, 3, 3, 4, 5, 6, 7, 9, 12}
 var bigCounts = []int{65534, 65535, 65535, 65536, 65536, 65537, 65537, 70001}
 
+// element counts around the block sizes a writer might stage its output in (powers of two and their neighbours)
+var mediumCounts = []int{255, 256, 257, 511, 512, 1023, 1024, 1024, 1025, 2048, 2048, 3072, 4095, 4096, 4097, 8192, 16384, 32768}
+
+// the pool genMesh draws "big" vertex counts from (switched by the caller for the medium-size stream)
+var bigPool = bigCounts
+
 func genMesh(r *hx.Rng, big bool) meshDesc {
 	var m meshDesc
 	m.Point = r.Chance(1, 3)
 	nv := hx.Pick(r, smallCounts)
 	if big {
-		nv = hx.Pick(r, bigCounts)
+		nv = hx.Pick(r, bigPool)
 	}
 	if !big && r.Chance(1, 25) {
 		nv = 0
@@ -767,5 +773,19 @@ func fixedScenes() []sceneDesc {
 	out = append(out, sceneDesc{Meshes: []meshDesc{quad},
 		Textures:  []texDesc{{URI: "a.png", Sampler: -1}, {URI: "A.png", Sampler: -1}, {URI: "tex/a.png", Sampler: -1}},
 		Materials: []matDesc{ua, ub}, Models: []modelDesc{m(0, 0), m(0, 1)}})
+	// 26: scene 15 with the two textures in the other order: the plain texture is stored first, the texture with the
+	// (required) KHR_texture_transform is de-duplicated onto it afterwards
+	tc, td := plainMat("t1"), plainMat("t2")
+	tc.BaseTex, td.BaseTex, td.NormalTex = 0, 1, 1
+	out = append(out, sceneDesc{Meshes: []meshDesc{quad},
+		Samplers:  []samplerDesc{{Name: "s", Mag: 9729, Min: 9987, WrapS: 10497, WrapT: 10497}},
+		Textures:  []texDesc{{URI: "a.png", Sampler: 0}, {URI: "a.png", Sampler: 0, Transform: 2}},
+		Materials: []matDesc{tc, td}, Models: []modelDesc{m(0, 0), m(0, 1)}})
+	// 27: 1024 GPU instances (an element count that is a whole number of 1024-element blocks), then a second model
+	var many []instDesc
+	for i := 0; i < 1024; i++ {
+		many = append(many, instDesc{T: [3]fl{fl(i % 7), fl(i / 7), 0.25}, R: [4]fl{0, 0, 0, 1}, S: [3]fl{1, 1, fl(1 + i%3)}})
+	}
+	out = append(out, sceneDesc{Meshes: []meshDesc{tri, quad}, Models: []modelDesc{{Name: "many", Mesh: 0, Material: -1, Inst: many}, m(1, -1)}})
 	return out
 }
